@@ -13,6 +13,7 @@ echo "worktree $WT at $(git rev-parse --short HEAD)" >> $OUT
 P=$D/patch.diff; [ -f $D/patch.rebased.diff ] && P=$D/patch.rebased.diff
 run_demo() {
   if [ -f $D/run_demo.sh ]; then
+    cargo build --offline -q -j 8 2>&1 | grep -E "^error" -A5
     bash $D/run_demo.sh $WT 2>&1 | tail -25 | cut -c1-400
     echo "[run_demo.sh exit status: ${PIPESTATUS[0]:-?}]"
   elif [ -f $D/demo.scm ]; then
